@@ -32,6 +32,34 @@ Definition conn2 (nx i j : nat) : list nat :=
 Definition cells2 (nx nz : nat) : list (list nat) :=
   flat_map (fun j => map (fun i => conn2 nx i j) (seq 1 nx)) (seq 1 nz).
 
+(** ** 2-D chunk grid (main.cc:937-947, 1061-1068): i (longitude) outer, j (radius) inner, both 1-based in the code *)
+Definition cnode2 (nz i j : nat) : nat := (nz + 1) * i + j.          (* lattice node (i,j), 0-based *)
+Definition conn_chunk2 (nz i j : nat) : list nat :=
+  [ (nz + 1) * (i - 1) + j - 1;  (nz + 1) * (i - 1) + j;  (nz + 1) * i + j;  (nz + 1) * i + j - 1 ].
+Definition cells_chunk2 (nx nz : nat) : list (list nat) :=
+  flat_map (fun i => map (fun j => conn_chunk2 nz i j) (seq 1 nz)) (seq 1 nx).
+Definition nodes_chunk2 (nx nz : nat) : list (nat * nat) :=
+  flat_map (fun i => map (fun j => (i, j)) (seq 0 (nz + 1))) (seq 0 (nx + 1)).
+
+(** ** annulus (main.cc:817-897): [nt] cells around, the ring closes on itself: the last cell of a ring references the
+    first node of the ring again (the "- n_cell_t" branch).  Node (i,j), i = 1..nt around, j = 0..nz outwards, is stored at
+    j*nt + (i-1); cell (i,j), j = 1..nz, is cell number (j-1)*nt + (i-1), which is the value of the running counter. *)
+Definition anode (nt i j : nat) : nat := j * nt + (i - 1).
+Definition awrap (nt i : nat) : nat := if i =? nt then 1 else i + 1.
+Definition conn_annulus (nt i j : nat) : list nat :=
+  let counter := (j - 1) * nt + (i - 1) in
+  let c0 := counter + 1 in
+  let c1 := counter + 1 + 1 in
+  let c2 := i + j * nt + 1 in
+  let c3 := i + j * nt in
+  let c1' := if i =? nt then c1 - nt else c1 in
+  let c2' := if i =? nt then c2 - nt else c2 in
+  [ c1' - 1; c0 - 1; c3 - 1; c2' - 1 ].
+Definition cells_annulus (nt nz : nat) : list (list nat) :=
+  flat_map (fun j => map (fun i => conn_annulus nt i j) (seq 1 nt)) (seq 1 nz).
+Definition nodes_annulus (nt nz : nat) : list (nat * nat) :=
+  flat_map (fun j => map (fun i => (i, j)) (seq 1 nt)) (seq 0 (nz + 1)).
+
 (** ** the tag filter (filter_vtu_mesh) *)
 (** state: vertex map (source vertex -> destination vertex), number of destination vertices,
     list of copied source vertices in destination order, output connectivity, output offsets *)
